@@ -1077,9 +1077,11 @@ impl Inner {
         Ok(())
     }
 
-    // Takes everything a channel has been handed (used when the connection is closed).
+    // Takes what a channel had been handed when the connection's close was requested:
+    // as many messages as its queue can hold. (Not "until it is empty": a publisher that
+    // keeps going could keep us here for good, its messages piling up in the buffer.)
     fn drain_channel(&mut self, channel_id: u16) -> Result<()> {
-        loop {
+        for _ in 0..usize::max(self.mio_channel_bound, 1) {
             let slot = match self.chan_slots.get(channel_id) {
                 Some(slot) => slot,
                 None => {
@@ -1099,6 +1101,7 @@ impl Inner {
                 Err(TryRecvError::Disconnected) => return EventLoopClientDroppedSnafu.fail(),
             }
         }
+        Ok(())
     }
 
     fn process_channel_message(&mut self, channel_id: u16, message: IoLoopMessage) -> Result<()> {
